@@ -3,6 +3,7 @@ import Driver.Expose
 import Driver.Ports
 import Driver.Outline
 import Driver.Fault
+import Driver.Persist
 
 /-- `pmodel <component>`: line-protocol driver over the executable model definitions. -/
 def main (args : List String) : IO UInt32 := do
@@ -12,4 +13,6 @@ def main (args : List String) : IO UInt32 := do
   | ["ports"] => DrvPorts.main; return 0
   | ["outline"] => DrvOutline.main; return 0
   | ["fault"] => DrvFault.main; return 0
-  | _ => IO.eprintln "usage: pmodel <pm|expose|ports|outline|fault>"; return 2
+  | ["persist"] => DrvPersist.main; return 0
+  | ["restore"] => DrvPersist.mainRestore; return 0
+  | _ => IO.eprintln "usage: pmodel <pm|expose|ports|outline|fault|persist|restore>"; return 2
